@@ -9,7 +9,8 @@ EXPL = ("W19.1 all 3x3 + 20x20 conversion ratios and their inverses, W19.2 all 2
         "W19.3 cross-family conversions and unit-on-string do not type-check (compile_fail witnesses with compiling twins). "
         "R19.4 the converting writer forwards only under `unit == From::UNIT`, with unit To::UNIT, the distribution mapped through "
         "Convert::convert, dimensions and flags by identity; mismatch and string go to invalid(). R19.5 Convert::convert is the "
-        "identity only under RATIO == 1.0, every other arm multiplies the value / total by RATIO and leaves occurrences unchanged. "
+        "identity only under RATIO == 1.0, every other arm multiplies the value / total by RATIO, emits that product unaltered (no cast, rounding or "
+        "further arithmetic after the multiplication) and leaves occurrences unchanged. "
         "R19.6 the unit constant Duration writes equals its declared MetricValue::Unit. Not decided: rounding of value x ratio.")
 CORE = "metrique_writer_core"
 
@@ -116,6 +117,29 @@ def run(ctx):
             o = pr.operand(flds[valf])
             scaled = ("op", "Mul") in o and any(x[0] == "const" and isinstance(x[1], tuple) and x[1][0] == "uneval" and x[1][1].endswith("Convert::RATIO") for x in o)
             ctx.check(scaled, "R19.5", key + "#%s-scaled-by-ratio" % var, loc(b, i), "the %s arm does not multiply the value by Self::RATIO (origins %s)" % (var, sorted(map(str, o))[:4]))
+            # ... and the product is what is emitted: nothing (a narrowing cast, a rounding call, further arithmetic) sits between
+            # the multiplication and the observation
+            l, hops, last = op_local(flds[valf]), 0, None
+            while l is not None and hops < 6:
+                dd = [d for d in b.defs().get(l, []) if not b.is_cleanup(d[1])]
+                if len(dd) != 1:
+                    last = {"k": "multiple definitions"}
+                    break
+                if dd[0][0] == "call":
+                    last = {"k": "call " + ((dd[0][3].get("callee") or {}).get("name") or "?")}
+                    break
+                last = dd[0][3]["rv"]
+                if last["k"] == "use" and op_local(last["op"]) is not None:
+                    l = op_local(last["op"])
+                    hops += 1
+                    continue
+                break
+            direct = bool(last) and last.get("k") == "binop" and last.get("op") == "Mul"
+            what = (last or {}).get("k", "?") + ((" " + last.get("kind", "")) if last and last.get("k") == "cast" else "")
+            ctx.check(direct, "R19.5", key + "#%s-product-emitted-unaltered" % var, loc(b, i),
+                      "the %s arm post-processes the product value x RATIO (%s) before emitting it: a float-to-integer cast saturates at u64::MAX and "
+                      "truncates, so large or fractional converted values are no longer value x ratio" % (var, what.strip()),
+                      "the emitted value is the product itself")
             if var == "Repeated":
                 oo = pr.operand(flds["occurrences"])
                 ctx.check(not any(x[0] == "op" for x in oo) and any(x[0] == "arg" and "occurrences" in x[2] for x in oo), "R19.5", key + "#occurrences-unchanged", loc(b, i), "occurrences are altered by a unit conversion")
